@@ -522,6 +522,12 @@ def emit(x: dict) -> dict:
 def main():
     x = extract()
     changed = emit(x)
+    import extract_threads
+    tx = extract_threads.extract()
+    changed["Threads"] = extract_threads.emit(tx, write_if_changed)
+    x["info"]["thread_skeleton_notes"] = tx["notes"]
+    x["info"]["seq_program"] = [d["op"] + ("!" if d["rel"] else "") for d in tx["seq"]]
+    x["info"]["sess_program"] = [d["op"] + ("!" if d["rel"] else "") for d in tx["sess"]]
     out = {"info": x["info"], "notes": x["notes"], "changed": changed,
            "names": len(x["names"].list)}
     json.dump(out, sys.stdout, indent=1)
